@@ -590,3 +590,49 @@ package ipfscluster
 //@   loop 1 (range replies)
 //@     invariant gpin != nil && forall i int :: 0 <= i && i < len(remote) ==> haskey(gpin.PeerMap, pkey(remote[i]))
 //@   modifies *
+
+// ---- C15: loading a section = the defaults, then the section applied on top of them (a setting the section does
+// not carry gets its default, not whatever the object held before) ----
+//@ ghost var defaultsN int
+//@ func (cfg *Config) setDefaults
+//@   opts trusted
+//@   counts defaultsN when true
+//@   modifies heap(Config)
+//@ func (cfg *Config) LoadJSON
+//@   property C15
+//@   requires cfg != nil
+//@   at_call Config.applyConfigJSON assert [defaults-first] defaultsN == old(defaultsN) + 1
+//@   modifies *
+
+// ---- C17: "a removed peer stops itself": the peer-watch loop shuts this peer down - marked as removed - exactly when a
+// successful peerset listing does not contain it ----
+//@ func (c *Cluster) Shutdown
+//@   opts trusted
+//@   modifies *
+//@ func (c *Cluster) watchPeers
+//@   property C17
+//@   at_call Cluster.Shutdown assert [a-removed-peer-stops-itself] c.removed && err == nil && (forall j int :: 0 <= j && j < len(peers) ==> peers[j] != c.id)
+//@   loop 1 (for)
+//@   loop 2 (range peers)
+//@     invariant !hasMe && forall j int :: 0 <= j && j < idx2 ==> peers[j] != c.id
+//@     on_break [left-early-only-when-found] hasMe
+//@   modifies *
+
+// ---- C04: the public pin entry points hand the request on as it was made ----
+//@ func (c *Cluster) Pin
+//@   property C04
+//@   requires pinsetInv()
+//@   at_call Cluster.pin assert [as-requested] arg_pin != nil && arg_pin.Cid == h && arg_pin.PinOptions == opts && arg_pin.Type == api.DataType && len(arg_pin.Allocations) == 0 && len(blacklist) == 0
+//@   modifies nLogPin, lastLogged, heap(api.Pin)
+
+//@ interface IPFSConnector.Resolve(ctx, path)
+//@   modifies nothing
+//@ func (c *Cluster) PinPath
+//@   property C04
+//@   requires pinsetInv()
+//@   at_call Cluster.Pin assert [the-resolved-cid-with-the-requested-options] h == ci && arg_opts == opts
+//@   modifies nLogPin, lastLogged, heap(api.Pin)
+//@ func (c *Cluster) UnpinPath
+//@   property C04
+//@   at_call Cluster.Unpin assert [the-resolved-cid] h == ci
+//@   modifies nLogUnpin, lastUnlogged
